@@ -21,14 +21,25 @@ const orderBytesPat = "binop</>(binop<+>(call<(*math/big.Int).BitLen>(*call<invo
 // (*big.Int, *big.Int, error), by signature.
 func (P *Prog) ecdsaHelpers() (enc, dec *ssa.Function) {
 	for _, fn := range P.Funcs {
-		if fn.Signature.Recv() != nil || len(fn.Params) < 2 || fn.Params[0].Type().String() != "crypto/elliptic.Curve" {
+		if fn.Signature.Recv() != nil || len(fn.Params) < 2 {
 			continue
 		}
 		res := fn.Signature.Results()
+		nCurve, nBig, nBytes := 0, 0, 0
+		for _, p := range fn.Params {
+			switch {
+			case p.Type().String() == "crypto/elliptic.Curve":
+				nCurve++
+			case p.Type().String() == "*math/big.Int":
+				nBig++
+			case isByteSlice(p.Type()):
+				nBytes++
+			}
+		}
 		switch {
-		case len(fn.Params) == 3 && res.Len() == 2 && isByteSlice(res.At(0).Type()) && fn.Params[1].Type().String() == "*math/big.Int":
+		case nCurve == 1 && nBig == 2 && res.Len() == 2 && isByteSlice(res.At(0).Type()) && errIndex(fn) == 1:
 			enc = fn
-		case len(fn.Params) == 2 && res.Len() == 3 && isByteSlice(fn.Params[1].Type()) && res.At(0).Type().String() == "*math/big.Int":
+		case nCurve == 1 && nBig == 0 && nBytes == 1 && len(fn.Params) == 2 && res.Len() == 3 && res.At(0).Type().String() == "*math/big.Int":
 			dec = fn
 		}
 	}
@@ -40,6 +51,24 @@ func (P *Prog) ecdsaHelpers() (enc, dec *ssa.Function) {
 
 // ecdsaHelpersOptional: set while a rule that can do without the helpers looks them up.
 var ecdsaHelpersOptional = false
+
+// encRoles: parameter indexes of the encode helper (curve, r, s).
+func encRoles(enc *ssa.Function) (curveI, rI, sI int) {
+	curveI, rI, sI = -1, -1, -1
+	for i, p := range enc.Params {
+		switch p.Type().String() {
+		case "crypto/elliptic.Curve":
+			curveI = i
+		case "*math/big.Int":
+			if rI < 0 {
+				rI = i
+			} else {
+				sI = i
+			}
+		}
+	}
+	return
+}
 
 func runC16(r *Report, tier string) {
 	P := r.P
@@ -53,7 +82,9 @@ func runC16(r *Report, tier string) {
 	if dec != nil {
 		r.analysed(dec)
 	}
-	nPat := strings.Replace(orderBytesPat, "%CURVE", "$0", 1)
+	curveI, rI, sI := encRoles(enc)
+	pc, pr, ps := "$"+itoa(int64(curveI)), "$"+itoa(int64(rI)), "$"+itoa(int64(sI))
+	nPat := strings.Replace(orderBytesPat, "%CURVE", pc, 1)
 	two := "binop<*>(" + nPat + ", 2)"
 	buf := "makeslice<[]byte>(" + two + ", " + two + ")"
 
@@ -74,19 +105,19 @@ func runC16(r *Report, tier string) {
 		}
 		fs := exitFacts(P, x)
 		miss, b := fs.firstMissing([]factPat{
-			fp(okp("call<%P>($1, slice(" + buf + ", _(), " + nPat + ", _()))")),
-			fp(okp("call<%P2>($2, slice(" + buf + ", " + nPat + ", _(), _()))")),
+			fp(okp("call<%P>(" + pr + ", slice(" + buf + ", _(), " + nPat + ", _()))")),
+			fp(okp("call<%P2>(" + ps + ", slice(" + buf + ", " + nPat + ", _(), _()))")),
 		}, nil)
 		_ = b
 		if miss != "" {
 			// %P in the S position is not a variable: match any callee by wildcard
 			miss, _ = fs.firstMissing([]factPat{
-				fp(okp("call<%>($1, slice(" + buf + ", _(), " + nPat + ", _()))")),
-				fp(okp("call<%>($2, slice(" + buf + ", " + nPat + ", _(), _()))")),
+				fp(okp("call<%>(" + pr + ", slice(" + buf + ", _(), " + nPat + ", _()))")),
+				fp(okp("call<%>(" + ps + ", slice(" + buf + ", " + nPat + ", _(), _()))")),
 			}, nil)
 		}
 		o.check(miss == "", "ok(prim(r, buf[:n])) and ok(prim(s, buf[n:]))", "missing on the success exit: "+truncate(miss, 300))
-		for _, c := range fs.findOK(func(call *Term) bool { return len(call.Args) == 2 && call.Args[0].String() == "$1" }) {
+		for _, c := range fs.findOK(func(call *Term) bool { return len(call.Args) == 2 && call.Args[0].String() == pr }) {
 			prim = P.calleeOfTerm(c)
 		}
 	}
@@ -142,8 +173,12 @@ func runC16(r *Report, tier string) {
 				o.fail("a success exit returns " + truncate(x.results[0].String(), 160) + " instead of the encode helper's result")
 				continue
 			}
-			curveOK := strings.HasPrefix(c.Args[0].String(), "**$0.") && strings.HasSuffix(c.Args[0].String(), ".Curve")
-			rT, sT := c.Args[1], c.Args[2]
+			if len(c.Args) != len(enc.Params) {
+				o.fail("the encode helper is called with an unexpected argument list: " + truncate(c.String(), 160))
+				continue
+			}
+			curveOK := strings.HasPrefix(c.Args[curveI].String(), "**$0.") && strings.HasSuffix(c.Args[curveI].String(), ".Curve")
+			rT, sT := c.Args[rI], c.Args[sI]
 			order := ""
 			switch {
 			case rT.Op == "res" && sT.Op == "res" && rT.Args[0].eq(sT.Args[0]) && rT.Args[0].Op == "call" && rT.Args[0].S == "crypto/ecdsa.Sign":
